@@ -142,7 +142,8 @@ class Prog:
                 "classRefs": self.class_refs, "autoPseudo": self.auto_pseudo, "ignoreBad": self.ignore_bad,
                 "gattr": self.gattr, "features": self.features, "languages": self.languages, "nameStart": self.name_start,
                 "classes": classes, "classDefs": defs, "classNames": names + ["ANY", "#"], "passes": passes,
-                "gattrValues": [[g, v] for g, v in sorted(getattr(self, "gattr_values", {}).items())]}
+                "gattrValues": [[g, v] for g, v in sorted(getattr(self, "gattr_values", {}).items())],
+                "advances": getattr(self, "advances", [])}
 
 
 def rule_text(r):
